@@ -41,6 +41,7 @@ import (
 	"github.com/simimpact/srsim/pkg/model"
 	"github.com/simimpact/srsim/pkg/servermode"
 	"github.com/simimpact/srsim/pkg/simulation"
+	"google.golang.org/protobuf/types/known/structpb"
 	"verifharness/wire"
 )
 
@@ -150,6 +151,15 @@ func realConfig(op *wire.Rec) *model.SimConfig {
 	for i, e := range op.List("enemies") {
 		en := &model.Enemy{Key: e, Level: uint32(op.Int("elevel")), BaseStats: &model.BaseStats{Hp: float64(op.Int("ehp")), Spd: 100 + float64(10*i)},
 			Weaknesses: []model.DamageType{model.DamageType(1 + (i+op.Int("seed"))%7)}}
+		if ep := strings.Split(op.Str("eparams"), ":"); len(ep) == 5 {
+			// an enemy that fights (the dummy enemy's parameters): attack pattern, hits per action, damage, energy given, element
+			hits, _ := strconv.Atoi(ep[1])
+			dmg, _ := strconv.ParseFloat(ep[2], 64)
+			energy, _ := strconv.ParseFloat(ep[3], 64)
+			if st, err := structpb.NewStruct(map[string]any{"attack": ep[0], "hit_count": float64(hits), "damage_percent": dmg, "energy": energy, "damage_type": ep[4]}); err == nil {
+				en.Parameters = st
+			}
+		}
 		if quirk&32 != 0 {
 			if i%2 == 0 {
 				en.Level = 0
@@ -653,11 +663,12 @@ type realSpec struct {
 	cycles, seed        int
 	quirk, tmask        int // optional-field variations of the configuration (see realConfig)
 	script              string
+	eparams             string // how the (dummy) enemies fight: "<attack>:<hits>:<damage percent>:<energy>:<damage type>", "" = passive
 }
 
 func (s realSpec) rec(name string) *wire.Rec {
 	return wire.R(name).Ss("chars", s.chars).Ss("lcs", s.lcs).Is("eidols", s.eidols).Is("levels", s.levels).S("relics", strings.Join(s.relics, ";")).
-		I("abil", s.abil).I("energy", s.energy).Ss("enemies", s.enemies).I("elevel", s.elevel).I("ehp", s.ehp).I("cycles", s.cycles).I("seed", s.seed).I("quirk", s.quirk).I("tmask", s.tmask).S("script", hexs(s.script))
+		I("abil", s.abil).I("energy", s.energy).Ss("enemies", s.enemies).I("elevel", s.elevel).I("ehp", s.ehp).I("cycles", s.cycles).I("seed", s.seed).I("quirk", s.quirk).I("tmask", s.tmask).S("script", hexs(s.script)).S("eparams", s.eparams)
 }
 
 func realSpecGen(r *rand.Rand, chars, lcs, relics []string) realSpec {
@@ -689,6 +700,11 @@ func realSpecGen(r *rand.Rand, chars, lcs, relics []string) realSpec {
 		s.enemies = append(s.enemies, "dummy")
 	}
 	s.script = realScript(r, s.chars)
+	if r.Intn(3) != 0 {
+		// enemies that fight back: single / bounce / blast / area attacks, light to lethal
+		s.eparams = fmt.Sprintf("%s:%d:%s:%d:%s", pick(r, "SINGLE", "BOUNCE", "BLAST", "AOE", "AOE"), pick(r, 1, 1, 2, 3), pick(r, "0.5", "1", "3", "10", "40", "200"), pick(r, 0, 10, 30),
+			pick(r, "PHYSICAL", "FIRE", "ICE", "THUNDER", "WIND", "QUANTUM", "IMAGINARY"))
+	}
 	return s
 }
 
